@@ -4,6 +4,11 @@ mod c12;
 mod c07;
 mod aead;
 mod stream;
+mod c04;
+mod pwstr;
+
+#[global_allocator]
+static GLOBAL: c04::Counting = c04::Counting;
 
 fn main() {
     let a: Vec<String> = std::env::args().collect();
@@ -23,6 +28,8 @@ fn main() {
         "C02" => aead::run_c02(&mut out, tier, seed),
         "C17" => aead::run_c17(&mut out, tier, seed),
         "C03" => stream::run_c03(&mut out, tier, seed),
+        "C04" => c04::run(&mut out, tier, seed),
+        "C10" => pwstr::run_c10(&mut out, tier, seed),
         _ => { eprintln!("unknown property {}", prop); std::process::exit(2); }
     }
     out.finish(prop, tier, seed);
